@@ -188,6 +188,16 @@ prop('C13', 'model_checking',
      'the otherwise-valid instance is generated from the tables; classes with an overridden verify() are exempt from the '
      'must-be-valid clause', 'TLA+ table model + TLC + exhaustive replay over extracted schema tables', 'section 5 C13')
 
+prop('C14', 'exploration',
+     'Bindings.tla models the wire each binding writes as a token sequence (structural separators distinct from escaped payload '
+     'characters, per escaping rule) and an independent reader; TLC checks NoInjection (exactly the expected parameters, each '
+     'once, existing query preserved, quotes only as delimiters) and RoundTrip for every scenario over a 16-class alphabet, and '
+     'exhibits the counterexamples of the pinned design (SOAP newline loss, artifact glue); every scenario is executed through '
+     'Entity.apply_binding and read back by strict urllib parse_qsl / html.parser / xml.etree and by Entity.unravel and the SOAP '
+     'decoders. Bounded-exhaustive over a character-class alphabet: the "for all strings" part is not proved',
+     'strings up to length 1 (quick) / 2 (thorough) over the alphabet; the form action is outside the property',
+     'TLA+ wire model + TLC + replay with independent readers', 'section 5 C14')
+
 
 def main():
     props = [json.loads(l) for l in open(os.path.join(VERIF, 'properties.jsonl'))]
